@@ -2,28 +2,49 @@ package main
 
 // A scripted database/sql driver standing in for clickhouse-go behind reader model.ISqlxDB: it holds the rows of
 // tempo_traces exactly as the writer stored them and answers the one query shape TempoService.GetQueryRequest
-// produces (trace_id = unhex('<hex>') [and timestamp bounds], ORDER BY timestamp_ns, LIMIT n).
+// produces by running its text through mc/chsim.
 
 import (
 	"context"
 	"database/sql"
 	"database/sql/driver"
-	"encoding/hex"
+	"errors"
 	"fmt"
 	"io"
-	"regexp"
-	"sort"
-	"strconv"
-	"strings"
+	"sync"
 
 	rconfig "github.com/metrico/cloki-config/config"
 	rmodel "github.com/metrico/qryn/reader/model"
+
+	"verif/mc/chsim"
 )
 
+// tracesTable holds the stored rows of tempo_traces.  The statement the reader sends is EXECUTED by the
+// ClickHouse-subset interpreter mc/chsim over that table (not recognised by its text), so any equivalent formulation
+// of the trace query gives the same rows.  A statement chsim cannot evaluate is a failure of the machinery
+// (errHarness -> exit 2), never a verdict.
 type tracesTable struct {
 	rows    []traceRow
 	queries []string
-	errs    []string
+
+	once sync.Once
+	cdb  *chsim.DB
+}
+
+var errHarness = errors.New("harness")
+
+func (t *tracesTable) db() *chsim.DB {
+	t.once.Do(func() {
+		db := chsim.NewDB()
+		rows := make([][]chsim.Value, 0, len(t.rows))
+		for _, r := range t.rows {
+			rows = append(rows, []chsim.Value{"0", r.TraceID, r.SpanID, r.Parent, r.Name, r.TsNs, r.DurNs, r.Service, int64(r.PayloadType), r.Payload})
+		}
+		db.AddQrynTable("tempo_traces", rows)
+		db.Alias("tempo_traces", "tempo_traces_dist")
+		t.cdb = db
+	})
+	return t.cdb
 }
 
 type connector struct{ t *tracesTable }
@@ -43,78 +64,53 @@ func (c *conn) Prepare(q string) (driver.Stmt, error) {
 func (c *conn) Close() error              { return nil }
 func (c *conn) Begin() (driver.Tx, error) { return nil, fmt.Errorf("no tx") }
 
-var (
-	reUnhex  = regexp.MustCompile(`trace_id\)? *==? *\(?unhex\('([^']*)'\)`)
-	reGe     = regexp.MustCompile(`timestamp_ns\)? *>= *\(?(-?\d+)`)
-	reLt     = regexp.MustCompile(`timestamp_ns\)? *< *\(?(-?\d+)`)
-	reLimit  = regexp.MustCompile(`LIMIT (\d+)`)
-	reSelect = regexp.MustCompile(`(?s)SELECT (.*?) FROM`)
-)
+var stmtCache sync.Map // sql text -> *chsim.Stmt | error
 
 func (c *conn) QueryContext(ctx context.Context, q string, args []driver.NamedValue) (driver.Rows, error) {
 	c.t.queries = append(c.t.queries, q)
-	if !strings.Contains(q, "tempo_traces") {
-		return nil, fmt.Errorf("fake: unknown query shape: %s", q)
+	var st *chsim.Stmt
+	if x, ok := stmtCache.Load(q); ok {
+		if st, ok = x.(*chsim.Stmt); !ok {
+			return nil, x.(error)
+		}
+	} else {
+		p, err := chsim.Parse(q)
+		if err != nil {
+			err = fmt.Errorf("%w: the interpreter cannot parse the statement: %v: %s", errHarness, err, q)
+			stmtCache.Store(q, err)
+			return nil, err
+		}
+		stmtCache.Store(q, p)
+		st = p
 	}
-	m := reUnhex.FindStringSubmatch(q)
-	if m == nil {
-		return nil, fmt.Errorf("fake: no trace id condition in: %s", q)
-	}
-	// ClickHouse unhex: decodes pairs of hex digits
-	id, err := hex.DecodeString(m[1])
+	res, err := c.t.db().Exec(st)
 	if err != nil {
-		return nil, fmt.Errorf("fake: unhex(%q): %v", m[1], err)
+		return nil, fmt.Errorf("%w: the interpreter cannot evaluate the statement: %v: %s", errHarness, err, q)
 	}
-	var ge, lt *int64
-	if g := reGe.FindStringSubmatch(q); g != nil {
-		v, _ := strconv.ParseInt(g[1], 10, 64)
-		ge = &v
-	}
-	if g := reLt.FindStringSubmatch(q); g != nil {
-		v, _ := strconv.ParseInt(g[1], 10, 64)
-		lt = &v
-	}
-	limit := 1 << 30
-	if g := reLimit.FindStringSubmatch(q); g != nil {
-		limit, _ = strconv.Atoi(g[1])
-	}
-	// the outer SELECT list decides the column order
-	sels := reSelect.FindAllStringSubmatch(q, -1)
-	if len(sels) == 0 {
-		return nil, fmt.Errorf("fake: no select list in: %s", q)
-	}
-	var cols []string
-	for _, cname := range strings.Split(sels[len(sels)-1][1], ",") {
-		cols = append(cols, strings.TrimSpace(cname))
-	}
-	var sel []traceRow
-	for _, r := range c.t.rows {
-		// FixedString(16) = 'x' comparison: ClickHouse pads the shorter constant with zero bytes
-		want := string(id)
-		if len(want) < 16 {
-			want += strings.Repeat("\x00", 16-len(want))
+	it := &rowsIt{cols: res.Cols}
+	for _, r := range res.Rows {
+		vals := make([]driver.Value, len(r))
+		for k, v := range r {
+			switch x := v.(type) {
+			case string, int64, uint64, float64:
+				vals[k] = x
+				if k < len(res.Types) && res.Types[k] != nil && res.Types[k].Name == "Int8" {
+					if i, ok := v.(int64); ok {
+						vals[k] = int8(i) // clickhouse-go hands an Int8 column over as int8
+					}
+				}
+			default:
+				return nil, fmt.Errorf("%w: column %s has a value of type %T the stand-in does not hand over", errHarness, res.Cols[k], v)
+			}
 		}
-		if r.TraceID != want {
-			continue
-		}
-		if ge != nil && r.TsNs < *ge {
-			continue
-		}
-		if lt != nil && r.TsNs >= *lt {
-			continue
-		}
-		sel = append(sel, r)
+		it.rows = append(it.rows, vals)
 	}
-	sort.SliceStable(sel, func(i, j int) bool { return sel[i].TsNs < sel[j].TsNs })
-	if len(sel) > limit {
-		sel = sel[:limit]
-	}
-	return &rowsIt{cols: cols, rows: sel}, nil
+	return it, nil
 }
 
 type rowsIt struct {
 	cols []string
-	rows []traceRow
+	rows [][]driver.Value
 	i    int
 }
 
@@ -124,32 +120,8 @@ func (r *rowsIt) Next(dest []driver.Value) error {
 	if r.i >= len(r.rows) {
 		return io.EOF
 	}
-	row := r.rows[r.i]
+	copy(dest, r.rows[r.i])
 	r.i++
-	for k, c := range r.cols {
-		switch c {
-		case "trace_id":
-			dest[k] = row.TraceID
-		case "span_id":
-			dest[k] = row.SpanID
-		case "parent_id":
-			dest[k] = row.Parent
-		case "name":
-			dest[k] = row.Name
-		case "service_name":
-			dest[k] = row.Service
-		case "timestamp_ns":
-			dest[k] = row.TsNs
-		case "duration_ns":
-			dest[k] = row.DurNs
-		case "payload_type":
-			dest[k] = row.PayloadType // Int8 arrives as int8 from clickhouse-go
-		case "payload":
-			dest[k] = row.Payload
-		default:
-			return fmt.Errorf("fake: unknown column %q", c)
-		}
-	}
 	return nil
 }
 
